@@ -350,7 +350,10 @@ Layout(G, zm) == [i \in 1..Len(zm) |-> <<zm[i].va, NLen(G.blk, zm[i].id)>>]
 (* id of the support node that starts at address a (0 if none)              *)
 NodeAt(G, a) == IF \E i \in 1..Len(G.sup) : G.sup[i].va = a
                 THEN G.sup[CHOOSE i \in 1..Len(G.sup) : G.sup[i].va = a].id ELSE 0
-EdgeAddrs(G) == {<<BStart(G.blk[e[1]]), BStart(G.blk[e[2]])>> : e \in ESet(G.edges)}
+(* an edge as an observer sees it: start addresses of its end points and, for each, whether that *)
+(* node is the one mapped in the support (a vertex dropped from the support keeps its address)  *)
+Mapped(G, id) == IF \E i \in 1..Len(G.sup) : G.sup[i].id = id THEN 1 ELSE 0
+EdgeAddrs(G) == {<<BStart(G.blk[e[1]]), BStart(G.blk[e[2]]), Mapped(G, e[1]), Mapped(G, e[2])>> : e \in ESet(G.edges)}
 
 (* pairwise-disjoint blocks, each memory object sitting at its block's address *)
 DisjointG(G) ==
@@ -374,4 +377,11 @@ SplitIdx(lay, a) == IF \E i \in 1..Len(lay) : lay[i][1] < a /\ a < lay[i][1] + l
 FallThroughE(Epre, Epost, old, new) ==
   /\ <<old, new>> \in Epost
   /\ \A e \in Epre : (e[1] = old /\ e[2] # new) => (<<new, e[2]>> \in Epost /\ <<old, e[2]>> \notin Epost)
+(* the same on observed edges <<from, to, from is mapped, to is mapped>>, old and new being the   *)
+(* mapped nodes at those addresses                                                             *)
+FallThroughO(Epre, Epost, old, new) ==
+  /\ \E e \in Epost : e[1] = old /\ e[3] = 1 /\ e[2] = new /\ e[4] = 1
+  /\ \A e \in Epre : (e[1] = old /\ e[3] = 1 /\ ~(e[2] = new /\ e[4] = 1)) =>
+        /\ \E f \in Epost : f[1] = new /\ f[3] = 1 /\ f[2] = e[2]
+        /\ ~\E f \in Epost : f[1] = old /\ f[3] = 1 /\ f[2] = e[2] /\ ~(f[2] = new /\ f[4] = 1)
 =============================================================================
